@@ -14,6 +14,10 @@
 //	(wire <ty> <val>)   value stored in a table of a real server.Server; read back through the real Handler (field
 //	                    packet ColumnLength + text value), go-sql-driver text protocol and go-sql-driver prepared
 //	                    (binary) protocol; each received representation is converted back with the column type
+//	(cslen …) (cs …) (cswirelen …) (cswire …)
+//	                    ENUM / SET / CHAR / VARCHAR / TEXT under every column character set x every character_set_results:
+//	                    announced length (computed at type construction) vs. transcoded text (produced at encode time)
+//	                    and the round trip through the result character set — see charset.go
 package main
 
 import (
@@ -411,6 +415,9 @@ func extract(a hx.ExtractArgs) error {
 		return fmt.Errorf("schemaToFields: ColumnLength field not found")
 	}
 	lf.DefString("columnLengthExpr", colLen)
+	if err := extractCharsets(a, lf); err != nil {
+		return err
+	}
 	return lf.Write(a.Out)
 }
 
@@ -880,7 +887,10 @@ func run(a hx.RunArgs) error {
 	out.Rule = "sql: for every integer type, DECIMAL(p,s) (fixed edge shapes + random p<=65, s<=min(p,30)), BIT(n), YEAR (all values), DATE, DATETIME(p)/TIMESTAMP(p) for p=0..6, TIME: edge values (range ends, digit-count boundaries, " +
 		"zero date, years 1..999, leap days, fraction boundaries) and random values whose digit count is uniform; the stored value is produced by Type.Convert and checked against the intended one; " +
 		"clamp: integers outside the type's range; free: floats (special magnitudes + random bit patterns), strings/binary/enum/set/json with multi-byte characters; " +
-		"wire: the same generators through a real server.Server, read by Handler.ComQuery, go-sql-driver text and prepared (binary) protocol. " +
+		"wire: the same generators through a real server.Server, read by Handler.ComQuery, go-sql-driver text and prepared (binary) protocol; " +
+		"cs/cslen: ENUM, SET (all members, all but one, none, random selections), CHAR(n)/VARCHAR(n) (n widest characters, random strings), TINYTEXT/TEXT (255 one-byte characters, widest characters) for every column character set in " +
+		"{utf8mb4, utf8mb3, latin1, ascii, utf16, utf32} x every character_set_results in {utf8mb4, utf8mb3, latin1, ascii, utf16, utf32, binary, NULL}, members and values drawn from characters both character sets encode (ASCII, Latin-1, cp1252 euro, Latin Extended, CJK, emoji); " +
+		"cswire/cswirelen: the same types as DDL columns (CHARACTER SET …) of the real server, `SET character_set_results` + SELECT on one Handler connection. " +
 		"A case is non-trivial when the value is non-zero/non-empty."
 	r := hx.NewRand(a.Seed)
 	g := gen{r.Fork()}
@@ -1233,7 +1243,12 @@ func run(a hx.RunArgs) error {
 			}
 		}
 	}
-	return nil
+
+	// ---- character-set streams (charset.go) -----------------------------------------------------
+	if err := runCharsets(a, out, r, en.e); err != nil {
+		return err
+	}
+	return runCharsetWire(a, out, r, en)
 }
 
 func tvType(t ty) ty { return t }
